@@ -9,7 +9,7 @@ import itertools
 import numpy as np
 
 from mc import core
-from mc.core import require
+from mc.core import require, Violation
 from mc.ref import batching as ref
 
 PROPERTY = 'C03'
@@ -93,6 +93,10 @@ def ref_processed(raw, chain):
 
 def same(a, b):
   return a.dtype == b.dtype and a.shape == b.shape and a.tobytes() == b.tobytes()
+
+
+class _UserCodeFailure(Exception):
+  pass
 
 
 def run_case(case):
@@ -184,6 +188,33 @@ def run_case(case):
   for b1, b2 in zip(first, second):
     require(set(b1) == set(b2) and all(same(np.asarray(b1[k]), np.asarray(b2[k])) for k in b1),
             'iterating the same view again gives different batches')
+  # a preprocessing fn (user code) that fails once, on its k-th call: the iteration dies there; iterating the same view again
+  # gives the full, unchanged sequence of batches (no cursor, buffer or partial batch survives the failed pass)
+  if not case.get('via') and not case.get('clone') and len(first) > 0:
+    for fail_at in sorted({0, len(first) - 1, len(first) // 2}):
+      calls = {'n': 0, 'armed': True}
+
+      def flaky(x, calls=calls, fail_at=fail_at):
+        calls['n'] += 1
+        if calls['armed'] and calls['n'] == fail_at + 1:
+          calls['armed'] = False
+          raise _UserCodeFailure()
+        return x
+      ds_f = fedjax.ClientDataset(ds.raw_examples, pre.append(flaky))
+      view_f = (ds_f.padded_batch(batch_size=bs, num_batch_size_buckets=buckets) if mode == 'padded' else
+                ds_f.batch(batch_size=bs, drop_remainder=(mode == 'plain_drop')))
+      got_f = []
+      try:
+        for b_ in view_f:
+          got_f.append(b_)
+        raise Violation('an exception raised by a preprocessing fn was swallowed by the batch iterator')
+      except _UserCodeFailure:
+        pass
+      require(len(got_f) <= fail_at, 'batches were yielded past a failing preprocessing call', fail_at, len(got_f))
+      again = list(view_f)
+      require(len(again) == len(first) and all(set(a) == set(b2) and all(same(np.asarray(a[k]), np.asarray(b2[k])) for k in a)
+                                                for a, b2 in zip(again, first)),
+              'after a pass that died in a preprocessing fn (call %d) the same view yields other batches' % (fail_at + 1), len(first), len(again))
   require(set(ds.raw_examples) == set(snap), 'the dataset\'s raw_examples gained or lost features during batching',
           sorted(snap), sorted(ds.raw_examples))
   for k in snap:
